@@ -145,12 +145,20 @@ class Hook:
         self.p = subprocess.Popen([self.exe], stdin=subprocess.PIPE, stdout=subprocess.PIPE,
                                   stderr=subprocess.DEVNULL, text=True, bufsize=1)
 
-    def call(self, req):
+    def call(self, req, timeout=None):
         if self.p is None or self.p.poll() is not None:
             self.start()
         try:
             self.p.stdin.write(json.dumps(req) + "\n")
             self.p.stdin.flush()
+            if timeout is not None:
+                import select
+                r, _, _ = select.select([self.p.stdout], [], [], timeout)
+                if not r:
+                    self.p.kill()
+                    self.p.wait()
+                    self.p = None
+                    return {"outcome": "slow", "timeout_s": timeout}
             line = self.p.stdout.readline()
         except BrokenPipeError:
             line = ""
@@ -169,6 +177,27 @@ class Hook:
             except Exception:
                 self.p.kill()
             self.p = None
+
+
+def hook_map(reqs, timeout_each=20, workers=8):
+    """Run requests through a pool of hook processes, each request under its own time limit."""
+    from concurrent.futures import ThreadPoolExecutor
+    import threading
+    local = threading.local()
+    hooks = []
+
+    def one(req):
+        h = getattr(local, "h", None)
+        if h is None:
+            h = local.h = Hook()
+            hooks.append(h)
+        return h.call(req, timeout=timeout_each)
+
+    with ThreadPoolExecutor(max_workers=workers) as ex:
+        out = list(ex.map(one, reqs))
+    for h in hooks:
+        h.close()
+    return out
 
 
 def hook_batch(reqs, timeout=600):
@@ -249,6 +278,24 @@ def coqc_file(path, timeout=900):
     """Compile one generated file outside the Makefile (cases / instance files).  Returns (ok, output)."""
     p = run(["timeout", str(timeout), "coqc"] + COQ_ARGS + [path], cwd=COQ, timeout=timeout + 60)
     return p.returncode == 0, p.stdout + p.stderr
+
+
+def coqc_many(paths, timeout=900, workers=12):
+    """Compile several generated files in parallel; returns [(ok, output)] in order."""
+    from concurrent.futures import ThreadPoolExecutor
+    with ThreadPoolExecutor(max_workers=workers) as ex:
+        return list(ex.map(lambda p: coqc_file(p, timeout), paths))
+
+
+def parse_mismatches(out, name="M"):
+    """Parse `M = [..] : list N` printed by coqc; returns list of ints or None."""
+    i = out.find(name + " = ")
+    if i < 0:
+        return None
+    lst = out[i + len(name) + 3:].split(":")[0].replace("%N", "").strip()
+    if lst == "[]":
+        return []
+    return [int(x) for x in lst.strip("[]").split(";") if x.strip()]
 
 
 def coq_nat_list(xs):
